@@ -127,6 +127,27 @@ def stress_run(rng, backend):
     return {"setup": setup, "mode": "stress", "threads": threads, "yield_seed": rng.getrandbits(60)}
 
 
+def bigdb_run(rng, nfill):
+    """A database large enough for the index rebuild to commit in several chunks (filler signatures that no
+    scan can legally return), rebuilt again and again while a writer flips the signatures that sort AFTER the
+    first chunk between two versions; scans run alongside and, once everything is quiet, once more."""
+    setup = [{"op": "add", "sig": mk_sig("i1", "tA", "fX")}, {"op": "add", "sig": mk_sig("i2", "tB", "")}]
+    flips = []
+    for k in range(rng.choice([60, 80])):
+        i = rng.choice(["i1", "i2"])
+        if rng.random() < 0.8:
+            flips.append({"op": "add", "sig": mk_sig(i, "tA" if k % 2 else "tB", rng.choice(["", "fX"]),
+                                                     rng.choice([sl.E["2.5"], sl.E["2.75"]]))})
+        else:
+            flips.append({"op": "delete", "id": i})
+    threads = [{"tid": 1, "ops": flips, "pace_us": 1200},
+               {"tid": 2, "ops": [{"op": "rebuild"} for _ in range(rng.choice([9, 12]))]}]
+    for t in (3, 4):
+        threads.append({"tid": t, "ops": [{"op": rng.choice(["scan", "scan", "exact"]), "q": rng.choice([1, 2])} for _ in range(6)]})
+    post = [{"op": o, "q": q} for q in (1, 2) for o in ("scan", "exact", "cand")]
+    return {"setup": setup, "mode": "stress", "threads": threads, "yield_seed": rng.getrandbits(60), "prefill": nfill, "post": post}
+
+
 def run_conc(ctx, plan, name, race):
     pp = os.path.join(ctx.scratch, name + ".plan.json")
     trace = os.path.join(ctx.scratch, name + ".ndjson")
@@ -240,6 +261,10 @@ def check(ctx):
         ctx.notes["stress_runs_" + be] = len(sruns)
         if be == "pebble" and t2:
             tr = t2
+    # 3b. the same on a database of > 1000 signatures (the rebuild commits in chunks of 1000)
+    bruns = [bigdb_run(rng, n) for n in ([1100, 2300, 1100, 3100, 1100, 1100, 2300, 1100] if thorough else [1100, 1100, 1100, 1100])]
+    validate(ctx, {"backend": "pebble", "theta": THETAS[0], "tol": sl.T050, "queries": QUERIES, "runs": bruns}, "bigdb", race=False)
+    ctx.notes["bigdb_runs"] = [b["prefill"] for b in bruns]
     if tr:
         evs = vlib.read_ndjson(tr)
         ctx.sample({"recorded_events": [e for e in evs if e["ev"] != "reset"][:6]})
